@@ -42,6 +42,7 @@ struct Spectrum {
 
 Spectrum diagonalize(const Mat& H, double beta);
 Mat to_eigenbasis(const Spectrum& sp, const Mat& O);
+Spectrum spectrum_from(const RVec& E, const Mat& U, double beta);   // use given eigen-data (columns of U) instead of diagonalising
 
 // ---- divided differences of f(x) = exp(beta x) ------------------------------------------------------------
 // phi(u) = (e^u - 1)/u, entire.
@@ -73,15 +74,15 @@ struct Val { cd v; double S; Val() : v(0), S(0) {} };   // value and sum of |con
 struct Lehmann1 {           // list of (residue, pole) -- the reference's own Lehmann terms, un-merged
     std::vector<cd> R; std::vector<double> P; std::vector<int> a, b;
 };
-Lehmann1 gf_terms(const Spectrum& sp, const Mat& Ci, const Mat& CXj);
+Lehmann1 gf_terms(const Spectrum& sp, const Mat& Ci, const Mat& CXj, const std::vector<char>* keep = 0);   // keep: per-eigenstate flag; a term (a,b) is included iff keep[a]||keep[b]
 Val gf_eval(const Lehmann1& L, cd z);
 // G_ij(tau), 0 <= tau <= beta (tau=0 means 0+, tau=beta means beta-)
 Val gf_tau(const Spectrum& sp, const Mat& Ci, const Mat& CXj, double tau);
 
 // ---- bosonic two-operator correlator  chi(W) = int_0^beta <A(tau) B(0)> e^{W tau},  W = i*2 pi n/beta (or any z with e^{beta W}=1)
-Val chi2(const Spectrum& sp, const Mat& A, const Mat& B, cd W);
+Val chi2(const Spectrum& sp, const Mat& A, const Mat& B, cd W, const std::vector<char>* keep = 0);
 // <A(tau) B(0)>
-Val corr_tau(const Spectrum& sp, const Mat& A, const Mat& B, double tau);
+Val corr_tau(const Spectrum& sp, const Mat& A, const Mat& B, double tau, const std::vector<char>* keep = 0);
 cd thermal_avg(const Spectrum& sp, const Mat& Oeig);
 
 // ---- ordered 4-operator simplex integral
@@ -90,12 +91,12 @@ cd thermal_avg(const Spectrum& sp, const Mat& Oeig);
 struct SparseRows { std::vector<std::vector<std::pair<int,cd> > > rows; };
 SparseRows sparsify(const Mat& O, double thr = 1e-13);
 Val simplex4(const Spectrum& sp, const SparseRows& O1, const SparseRows& O2, const SparseRows& O3, const Mat& O4,
-                    cd W1, cd W2, cd W3);
+                    cd W1, cd W2, cd W3, const std::vector<char>* keep = 0);
 
 // chi_ijkl(w1,w2;w3) = int int int <T c_i(t1) c_j(t2) c+_k(t3) c+_l(0)> exp(i w1 t1 + i w2 t2 - i w3 t3)
 struct TwoPGFRef {
-    const Spectrum* sp; SparseRows A[3]; Mat A4;
-    TwoPGFRef(const Spectrum& s, const Mat& Ci, const Mat& Cj, const Mat& CXk, const Mat& CXl) : sp(&s), A4(CXl) {
+    const Spectrum* sp; SparseRows A[3]; Mat A4; const std::vector<char>* keep;
+    TwoPGFRef(const Spectrum& s, const Mat& Ci, const Mat& Cj, const Mat& CXk, const Mat& CXl, const std::vector<char>* keep_ = 0) : sp(&s), A4(CXl), keep(keep_) {
         A[0] = sparsify(Ci); A[1] = sparsify(Cj); A[2] = sparsify(CXk);
     }
     Val operator()(cd z1, cd z2, cd z3) const {     // z = i w
@@ -104,7 +105,7 @@ struct TwoPGFRef {
         cd W[3] = { z1, z2, -z3 };
         Val r;
         for (int p = 0; p < 6; ++p) {
-            Val t = simplex4(*sp, A[perms[p][0]], A[perms[p][1]], A[perms[p][2]], A4, W[perms[p][0]], W[perms[p][1]], W[perms[p][2]]);
+            Val t = simplex4(*sp, A[perms[p][0]], A[perms[p][1]], A[perms[p][2]], A4, W[perms[p][0]], W[perms[p][1]], W[perms[p][2]], keep);
             r.v += double(sgn[p]) * t.v; r.S += t.S;
         }
         return r;
